@@ -492,7 +492,8 @@ where
     E: nom::error::ParseError<&'a [u8]>,
     F: Fn(&'a [u8]) -> nom::IResult<&'a [u8], T, E>,
 {
-    items.reserve_exact(num_items as usize);
+    // every item needs at least one input byte: never reserve more than the input can provide
+    items.reserve_exact((num_items as usize).min(input.len()));
     for _ in 0..num_items {
         let (rest, data) = parser(input)?;
         items.push(data);
